@@ -31,6 +31,21 @@
 #include <etl/_utility/pair.hpp>
 #include <etl/_utility/swap.hpp>
 
+// Structured bindings look for std::tuple_size and std::tuple_element. Like etl::construct_at does for
+// std::construct_at: use the standard header when there is one, otherwise declare the primary templates.
+#if __has_include(<utility>)
+    #include <utility>
+#else
+// NOLINTBEGIN
+namespace std {
+template <typename T>
+struct tuple_size;
+template <etl::size_t I, typename T>
+struct tuple_element;
+} // namespace std
+// NOLINTEND
+#endif
+
 namespace etl {
 
 namespace detail {
@@ -404,5 +419,18 @@ template <typename... Ts, typename... Us>
 }
 
 } // namespace etl
+
+// NOLINTBEGIN
+namespace std {
+
+/// \brief Makes etl::tuple usable in structured bindings: auto [a, b] = t;
+template <typename... Ts>
+struct tuple_size<etl::tuple<Ts...>> : etl::tuple_size<etl::tuple<Ts...>> { };
+
+template <etl::size_t I, typename... Ts>
+struct tuple_element<I, etl::tuple<Ts...>> : etl::tuple_element<I, etl::tuple<Ts...>> { };
+
+} // namespace std
+// NOLINTEND
 
 #endif // TETL_TUPLE_TUPLE_HPP
